@@ -256,3 +256,23 @@ func SameSig(a, b []string) bool {
 	}
 	return true
 }
+
+// CallOf resolves a fact's expression to the call whose result it is: the expression itself, or — when it is a local
+// that is defined exactly once — its definition.  Rules that ask "is this statement control-dependent on the result of
+// calling g" use it so that `ok := g(x); if ok {…}` is treated like `if g(x) {…}`.
+func CallOf(f *Fn, e ast.Expr) *ast.CallExpr {
+	e = Unparen(e)
+	if call, ok := e.(*ast.CallExpr); ok {
+		return call
+	}
+	if id, ok := e.(*ast.Ident); ok {
+		if o := ObjOf(f.Pkg, id); o != nil {
+			if ds := DefsOf(f, o); len(ds) == 1 {
+				if call, isC := Unparen(ds[0]).(*ast.CallExpr); isC {
+					return call
+				}
+			}
+		}
+	}
+	return nil
+}
